@@ -23,7 +23,7 @@ type C12Case struct {
 
 var specC12 = report.Spec{Property: "C12", Check: "C12",
 	Rule: "source GeoPackages written by the harness (go-spatial gpkg + SQL): 1-3 feature tables, integer primary key plus 0-4 attribute columns (INTEGER, REAL, TEXT, nullable or NOT NULL), geometry column at a random position, geometry type from all eight names (GEOMETRY, POINT, LINESTRING, POLYGON, MULTIPOINT, MULTILINESTRING, MULTIPOLYGON, GEOMETRYCOLLECTION), SRS in {4326, 3857, a custom 28992 definition}; " +
-		"page size p in 1..40 (thorough 120), 1 case in 40 a page size of several hundred up to 1001 with counts around p and around multiples of 999/#columns, 1 in 40 a huge page size (2^20 .. MaxInt64); feature count n with the classes n = 0, k*p, k*p+1, k*p-1 forced (n <= 3p+1); columns INTEGER, REAL, TEXT and DATETIME (instants with sub-millisecond digits, compared as instants), empty geometries included (first in a page, alone in the last page). Subject: SourceGeopackage.GetTableInfo -> TargetGeopackage.Init/CreateTables/WriteFeatures fed from a channel by the harness, table after table like main.go; and a second route in which the same features are stored in the source and copied by SourceGeopackage.ReadFeatures -> WriteFeatures. " +
+		"page size p in 1..40 (thorough 120), 1 case in 40 a page size of several hundred up to 1001 with counts around p and around multiples of 999/#columns, 1 in 40 a huge page size (2^20 .. MaxInt64), 1 in 60 (thorough 40) a table whose full page carries more than 32 766 values (33-40 columns x page size ~1000, or 6 columns x page size 5462/8192; SQLite's bound parameter limit) with n = p, p+1 or p+7; feature count n with the classes n = 0, k*p, k*p+1, k*p-1 forced (n <= 3p+1); columns INTEGER, REAL, TEXT and DATETIME (instants with sub-millisecond digits, compared as instants), empty geometries included (first in a page, alone in the last page). Subject: SourceGeopackage.GetTableInfo -> TargetGeopackage.Init/CreateTables/WriteFeatures fed from a channel by the harness, table after table like main.go; and a second route in which the same features are stored in the source and copied by SourceGeopackage.ReadFeatures -> WriteFeatures. " +
 		"Oracle (read back with database/sql): rows in rowid order equal the fed features (key, attributes by value, geometry by decoded deep equality); the R-tree table holds exactly the keys of the rows with a non-empty geometry; gpkg_contents min/max = bounding box of all non-empty fed geometries (NULL when none), exact; " +
 		"gpkg_geometry_columns row, PRAGMA table_info and the spatial reference system row equal the source's. Non-trivial: some table has n > p and n mod p in {0, 1, p-1}. Distinct by case content.",
 	Assumptions: []string{"the verif-tagged stub driver's ST_IsEmpty/ST_MinX.. stand in for SpatiaLite's (same semantics on the generated geometries)", "geometry blobs are non-NULL, page size >= 1, columns have no default values (the reader's documented input domain)"}}
@@ -57,11 +57,29 @@ func genC12(t *rapid.T) C12Case {
 	case 23: // any positive page size: huge ones mean one transaction per table
 		c.PageSize = rapid.SampledFrom([]int{1 << 20, math.MaxInt32, 1 << 50, math.MaxInt64}).Draw(t, "pagesizeHuge")
 	}
+	wide := false
 	nt := rapid.IntRange(1, 3).Draw(t, "tables")
+	if rapid.IntRange(0, report.Scale(60, 40)).Draw(t, "wide") == 31 {
+		// a full page of a wide table (or a long page of a narrow one) carries more than 32 766 values, SQLite's limit of bound parameters per statement
+		wide, nt = true, 1
+		c.PageSize = rapid.SampledFrom([]int{1000, 1000, 999, 1200, 5462, 8192}).Draw(t, "pagesizeWide")
+	}
 	for i := 0; i < nt; i++ {
 		ts := drawTableSkeleton(t, i, allGTypes)
 		n := drawCount(t, min(c.PageSize, 400))
-		if c.PageSize >= 100 && c.PageSize <= 2000 && rapid.Bool().Draw(t, "aroundPage") {
+		if wide {
+			if c.PageSize <= 1200 {
+				for k := len(ts.Cols); k < 32766/c.PageSize+rapid.IntRange(1, 8).Draw(t, "extraCols"); k++ {
+					ts.Cols = append(ts.Cols, ColSpec{Name: fmt.Sprintf("w%d", k), Type: rapid.SampledFrom([]string{"INTEGER", "REAL", "TEXT"}).Draw(t, "wtype")})
+				}
+			} else if len(ts.Cols) < 4 {
+				for k := len(ts.Cols); k < 4; k++ {
+					ts.Cols = append(ts.Cols, ColSpec{Name: fmt.Sprintf("w%d", k), Type: "INTEGER"})
+				}
+			}
+			n = c.PageSize + rapid.SampledFrom([]int{0, 1, 7}).Draw(t, "nWide")
+		}
+		if !wide && c.PageSize >= 100 && c.PageSize <= 2000 && rapid.Bool().Draw(t, "aroundPage") {
 			// around the page size, and around multiples of 999 / #columns (statement parameter limits)
 			cols := len(ts.Cols) + 2
 			n = rapid.SampledFrom([]int{c.PageSize - 1, c.PageSize, c.PageSize + 1, 999 / cols, 999/cols + 1, 2 * (999 / cols), 3 * (999 / cols), 999, 1000}).Draw(t, "nLarge")
